@@ -322,6 +322,8 @@ def fixed_programs():
                                                     "terms": [[[1], [1, 2]], [[2], [0, 1]]]}}],
          "kw": {"values": {"q0": 2}}, "extra": True},
         {"fn": "cancel-then-reduce", "args": [P3], "kw": {"how": "sum"}, "extra": True},
+        {"fn": "cancel-then-reduce", "args": [P1], "kw": {"how": "diffvar"}, "extra": True},
+        {"fn": "cancel-then-reduce", "args": [P3], "kw": {"how": "diffvar"}, "extra": True},
         # an unused LEADING name: positions and names must keep their meaning between the steps
         {"fn": "derivative", "args": [{"$p": {"names": ["q0", "q1", "q2"], "shape": [], "kind": "i", "retain": False,
                                               "terms": [[[0, 2, 1], [1]], [[0, 0, 3], [1]]]}}],
